@@ -1,5 +1,7 @@
 """C16 - standard shapes and transforms (structural part): name-implied roles,
 inverse-parameter convention and closed-form identities of the primitives."""
+import re
+
 import sympy as sp
 
 from .. import ast as A
@@ -558,6 +560,231 @@ def r_named_constants(rule, root=None):
 from . import C13  # noqa: E402
 
 
+
+TRANSFORMS = ("Move", "Scale", "ScaleUniform", "Reflect", "ReflectX", "ReflectXY", "ReflectY", "ReflectZ", "Rotate", "RotateX", "RotateY", "RotateZ", "RepeatX", "RepeatY", "RepeatZ", "RepeatXY", "RepeatXYZ")
+
+
+def r_pure_transforms(rule, root=None):
+    """T(s)(p) = s(T^-1 p): the tree a transform returns is its input *remapped* - through remap_affine /
+    remap_xyz, or by handing it to another transform - and nothing else.  Any arithmetic on the remapped value
+    (a `k * s(p / k)` "distance correction", an offset, a clamp) changes the field's values, and for a negative
+    factor its sign."""
+    present = set()
+    for imp in A.find_impls(LIB, self_ty="Tree", root=root):
+        m = re.match(r"From<(\w+)>$", (imp.get("trait") or "").replace(" ", ""))
+        if m:
+            present.add(m.group(1))
+    n = 0
+    for ty in TRANSFORMS:
+        if ty not in present:
+            continue
+        n += 1
+        fn = from_fn(ty, root=root)
+        ps = [A.binding_name(p["pat"]) for p in fn["sig"]["inputs"] if "pat" in p]
+        par = ps[0] if ps else "v"
+        env = {}
+
+        def pure(e, depth=0):
+            e = A.strip(e)
+            k = e.get("k")
+            if depth > 12:
+                return False
+            if k == "MethodCall" and e["method"] in ("remap_affine", "remap_xyz"):
+                return pure(e["recv"], depth + 1)
+            if k == "MethodCall" and e["method"] in ("into", "clone") and not e["args"]:
+                return pure(e["recv"], depth + 1)
+            if k == "Call" and (A.path_segs(e["func"]) or [])[-2:] == ["Tree", "from"] and len(e["args"]) == 1:
+                return pure(e["args"][0], depth + 1)
+            if k == "Struct" and (A.path_segs(e["path"]) or [None])[-1] in TRANSFORMS:
+                for f in e["fields"]:
+                    if f["name"] == "shape":
+                        return pure(f["e"] if f.get("e") is not None else {"k": "Path", "segs": ["shape"]}, depth + 1)
+                return False
+            if k == "Field" and str(e["member"]) == "shape" and A.ident(A.strip(e["e"])) == par:
+                return True
+            if k == "Path" and len(e["segs"]) == 1 and e["segs"][0] in env:
+                return pure(env[e["segs"][0]], depth + 1)
+            if k == "Block":
+                return all(pure(l, depth + 1) for l, _c in A.value_cases(e)) if A.value_cases(e) and A.value_cases(e)[0][0] is not e else False
+            return False
+
+        def subst(e):
+            # freeze the current meaning of locals inside an initialiser (shadowing: `let shape = shape.remap(..)`)
+            import copy
+
+            e = copy.deepcopy(e)
+
+            def rec(n):
+                if isinstance(n, dict):
+                    for kk, vv in list(n.items()):
+                        if isinstance(vv, dict):
+                            sv = A.strip(vv)
+                            if sv.get("k") == "Path" and len(sv.get("segs", [])) == 1 and sv["segs"][0] in env:
+                                n[kk] = env[sv["segs"][0]]
+                            else:
+                                rec(vv)
+                        elif isinstance(vv, list):
+                            for i_, x in enumerate(vv):
+                                if isinstance(x, dict):
+                                    sx = A.strip(x)
+                                    if sx.get("k") == "Path" and len(sx.get("segs", [])) == 1 and sx["segs"][0] in env:
+                                        vv[i_] = env[sx["segs"][0]]
+                                    else:
+                                        rec(x)
+                            # struct shorthand `Move { shape, .. }`
+                    if n.get("k") == "Struct":
+                        for f in n.get("fields", []):
+                            if f.get("e") is None and f["name"] in env:
+                                f["e"] = env[f["name"]]
+                            elif f.get("e") is not None:
+                                sx = A.strip(f["e"])
+                                if sx.get("k") == "Path" and sx.get("segs") == [f["name"]] and f["name"] in env:
+                                    f["e"] = env[f["name"]]
+
+            rec(e)
+            return e
+
+        tail = None
+        for st in A.stmts_of(fn["body"]):
+            if st.get("k") == "Let" and st.get("init") is not None and A.binding_name(st["pat"]):
+                env[A.binding_name(st["pat"])] = subst(st["init"])
+            elif st.get("k") == "ExprStmt" and not st.get("semi", True):
+                tail = subst(st["e"])
+        leaves = [l for l, _c in A.value_cases(tail)] if tail is not None else []
+        leaves += [subst(r_["e"]) for r_ in A.find(fn["body"], "Return") if r_.get("e") is not None]
+        if leaves and all(pure(l) for l in leaves):
+            rule.ok("%s returns its shape remapped (or handed to another transform), the value untouched" % ty, file=LIB, line=fn["ln"])
+        else:
+            bad = [str(A.ftxt(l))[:90] for l in leaves if not pure(l)]
+            rule.bad("%s|pure" % ty, "%s must return its input shape remapped and nothing else (T(s)(p) = s(T^-1 p)); it returns `%s`" % (ty, (bad or ["?"])[0]), A.where(LIB, fn))
+    if n < 13:
+        rule.lost("transform impls (found %d of the 13 known)" % n)
+
+
+TYPES_RS = "fidget-shapes/src/types.rs"
+
+
+def r_vector_helpers(rule, root=None):
+    """the GLSL-style vectors shapes are written with: every helper acts component by component (x with x, y with
+    y, ..) and the scalar / vector operator forms keep their operands in order"""
+    comps = {"Vec2": ["x", "y"], "Vec3": ["x", "y", "z"], "Vec4": ["x", "y", "z", "w"]}
+
+    def lit_fields(fn):
+        sts = [s_ for s_ in A.find(fn["body"], "Struct")]
+        if len(sts) != 1:
+            return None
+        return {f["name"]: (str(A.ftxt(f["e"])) if f.get("e") is not None else f["name"]) for f in sts[0]["fields"]}
+
+    for ty, cs in comps.items():
+        for name, want in (("combine", lambda c, a: "%s(self.%s,%s.%s)" % (a[1], c, a[0], c)), ("map", lambda c, a: "%s(self.%s)" % (a[0], c))):
+            try:
+                fn = A.find_fn(TYPES_RS, name, self_ty=ty, root=root)
+            except A.AnchorLost as e:
+                rule.lost(str(e))
+                continue
+            args = [A.binding_name(p["pat"]) for p in fn["sig"]["inputs"] if "pat" in p]
+            got = lit_fields(fn)
+            exp = {c: want(c, args) for c in cs}
+            if got == exp:
+                rule.ok("%s::%s acts on every component with itself" % (ty, name), file=TYPES_RS, line=fn["ln"])
+            else:
+                diff = [c for c in cs if (got or {}).get(c) != exp[c]]
+                rule.bad("%s::%s|%s" % (ty, name, ",".join(diff)), "%s::%s: component %s is `%s`, expected `%s` (every component from the same component of its operands)" % (ty, name, diff[0] if diff else "?", (got or {}).get(diff[0]) if diff else got, exp[diff[0]] if diff else exp), A.where(fn))
+        # constructors and conversions
+        try:
+            fn = A.find_fn(TYPES_RS, "new", self_ty=ty, root=root) if ty != "Vec4" else None
+        except A.AnchorLost:
+            fn = None
+        if fn is not None:
+            args = [A.binding_name(p["pat"]) for p in fn["sig"]["inputs"] if "pat" in p]
+            got = lit_fields(fn)
+            if args == cs and got == {c: c for c in cs}:
+                rule.ok("%s::new takes its components in order" % ty, file=TYPES_RS, line=fn["ln"])
+            else:
+                rule.bad("%s::new" % ty, "%s::new must take (%s) in order and store each under its own name; found parameters %s, fields %s" % (ty, ", ".join(cs), args, got), A.where(fn))
+        for imp in A.find_impls(TYPES_RS, self_ty=ty, root=root):
+            tr = (imp.get("trait") or "").replace(" ", "")
+            fns_ = [x for x in imp["items"] if x.get("k") == "Fn" and x["name"] == "from"]
+            if not fns_:
+                continue
+            fn = fns_[0]
+            fn["_file"] = TYPES_RS
+            arg = [A.binding_name(p["pat"]) for p in fn["sig"]["inputs"] if "pat" in p][0]
+            got = lit_fields(fn)
+            if tr == "From<f32>":
+                exp = {c: arg for c in cs}
+                what = "a scalar becomes the vector with every component equal to it"
+            elif tr.startswith("From<nalgebra::Vector"):
+                exp = {c: "%s.%s" % (arg, c) for c in cs}
+                what = "conversion from nalgebra keeps every component in place"
+            else:
+                continue
+            if got == exp:
+                rule.ok("%s: %s" % (ty, what), file=TYPES_RS, line=fn["ln"])
+            else:
+                rule.bad("%s|%s" % (ty, tr), "%s %s: %s; found %s" % (ty, tr, what, got), A.where(TYPES_RS, fn))
+        # into nalgebra
+        for imp in A.find_impls(TYPES_RS, root=root):
+            if (imp.get("trait") or "").replace(" ", "") == "From<%s>" % ty and imp["self_ty"].replace(" ", "").startswith("nalgebra::Vector"):
+                fn = [x for x in imp["items"] if x.get("k") == "Fn" and x["name"] == "from"][0]
+                arg = [A.binding_name(p["pat"]) for p in fn["sig"]["inputs"] if "pat" in p][0]
+                t = str(A.ftxt(fn["body"]))
+                if t == "{Self::new(%s)}" % ",".join("%s.%s" % (arg, c) for c in cs):
+                    rule.ok("%s converts to nalgebra component by component, in order" % ty, file=TYPES_RS, line=fn["ln"])
+                else:
+                    rule.bad("%s|into-nalgebra" % ty, "%s -> nalgebra must be Self::new(%s)" % (ty, ", ".join("v." + c for c in cs)), A.where(TYPES_RS, fn))
+        # norm
+        if ty != "Vec4":
+            try:
+                fn = A.find_fn(TYPES_RS, "norm", self_ty=ty, root=root)
+                t = str(A.ftxt(fn["body"]))
+                terms = sorted(re.findall(r"self\.(\w)\.powi\(2\)", t))
+                if terms == sorted(cs) and t.endswith(".sqrt()}") and "-" not in t and "*" not in t:
+                    rule.ok("%s::norm is the square root of the sum of every component squared" % ty, file=TYPES_RS, line=fn["ln"])
+                else:
+                    rule.bad("%s::norm" % ty, "%s::norm must be sqrt(%s)" % (ty, " + ".join("%s^2" % c for c in cs)), A.where(fn))
+            except A.AnchorLost as e:
+                rule.lost(str(e))
+    # operator macros
+    d = A.load(TYPES_RS, root)
+    mdefs = {m["def"]: m for m in A.find(d["items"], "Macro") if m.get("def")}
+    import fv.props.C17 as C17  # tok()
+
+    body = C17.tok(mdefs["impl_binary"]["tokens"]) if "impl_binary" in mdefs else ""
+    facts = [
+        ("vector op vector combines component-wise as a.op(b)", r"fn\$base_fn\(self,(?P<r>\w+):\$ty\)->Self\{self\.combine\((?P=r),\|(?P<a>\w+),(?P<b>\w+)\|(?P=a)\.\$base_fn\((?P=b)\)\)\}"),
+        ("scalar op vector is splat(scalar).op(vector)", r"impl(?:std::ops::)?\$op<\$ty>forf32\{typeOutput=\$ty;fn\$base_fn\(self,(?P<r>\w+):\$ty\)->\$ty\{\$ty::from\(self\)\.\$base_fn\((?P=r)\)\}\}"),
+        ("vector op scalar is vector.op(splat(scalar))", r"impl(?:std::ops::)?\$op<f32>for\$ty\{typeOutput=\$ty;fn\$base_fn\(self,(?P<r>\w+):f32\)->\$ty\{self\.\$base_fn\(\$ty::from\((?P=r)\)\)\}\}"),
+        ("named binary helpers (min / max) combine self with the converted argument", r"self\.combine\(\$ty::from\((?P<r>\w+)\),\$f\)"),
+        ("the default closure of a named binary helper is a.f(b)", r"impl_binary!\(\$ty,\$base_fn,\|(?P<a>\w+),(?P<b>\w+)\|(?P=a)\.\$base_fn\((?P=b)\)\);"),
+    ]
+    for what, rx in facts:
+        if re.search(rx, body):
+            rule.ok("impl_binary!: %s" % what, file=TYPES_RS, line=mdefs["impl_binary"]["ln"])
+        else:
+            rule.bad("impl_binary|%s" % what[:20], "impl_binary!: %s" % what, "%s:%s" % (TYPES_RS, mdefs.get("impl_binary", {}).get("ln", "?")))
+    body = C17.tok(mdefs["impl_unary"]["tokens"]) if "impl_unary" in mdefs else ""
+    facts = [
+        ("operator form maps the operator over the components", r"fn\$base_fn\(self\)->\$ty\{self\.map\((?:std::ops::)?\$op::\$base_fn\)\}"),
+        ("named form maps its function", r"pubfn\$base_fn\(self\)->Self\{self\.map\(\$f\)\}"),
+        ("the default closure is a.f()", r"impl_unary!\(\$ty,\$base_fn,\|(?P<a>\w+)\|(?P=a)\.\$base_fn\(\)\);"),
+    ]
+    for what, rx in facts:
+        if re.search(rx, body):
+            rule.ok("impl_unary!: %s" % what, file=TYPES_RS, line=mdefs["impl_unary"]["ln"])
+        else:
+            rule.bad("impl_unary|%s" % what[:20], "impl_unary!: %s" % what, "%s:%s" % (TYPES_RS, mdefs.get("impl_unary", {}).get("ln", "?")))
+    body = C17.tok(mdefs["impl_all"]["tokens"]) if "impl_all" in mdefs else ""
+    for op, f in (("Add", "add"), ("Mul", "mul"), ("Sub", "sub"), ("Div", "div")):
+        if "impl_binary!($ty,%s,%s);" % (op, f) in body:
+            rule.ok("impl_all!: %s is %s" % (op, f), file=TYPES_RS)
+        else:
+            rule.bad("impl_all|%s" % op, "impl_all! must implement %s through `%s`" % (op, f), TYPES_RS)
+    if "impl_unary!($ty,Neg,neg);" in body:
+        rule.ok("impl_all!: Neg is neg", file=TYPES_RS)
+    else:
+        rule.bad("impl_all|Neg", "impl_all! must implement Neg through `neg`", TYPES_RS)
+
 def run(ctx):
     r = ctx.rule("R1", "named axes and planes denote what their names say", 9)
     ctx.guarded(r, r_named_constants)
@@ -573,6 +800,10 @@ def run(ctx):
     ctx.guarded(r, r_transforms)
     # "arbitrary nesting of transforms": a transform is a lazy remap node, and nesting composes only if the
     # importer evaluates each remap in the frame of the one around it (the rules are C13's, read here too)
+    r = ctx.rule("R3p", "a transform returns its input shape remapped and nothing else (no arithmetic on the remapped value)", 13)
+    ctx.guarded(r, r_pure_transforms)
+    r = ctx.rule("R5", "the vector types shapes are written with act component by component; scalar / vector operator forms keep operand order", 30)
+    ctx.guarded(r, r_vector_helpers)
     r = ctx.rule("R4", "nested transforms compose: the importer lowers each remap in the innermost enclosing frame", 8)
     ctx.guarded(r, C13.r5_axis_roles)
     r = ctx.rule("R4b", "nested transforms compose: importer frames are pushed and popped around their target", 7)
